@@ -105,6 +105,34 @@ def reload_part(ck, tier):
                           "posterior_over_T": [float(want[k]) for k in bad[:1]], "saved_at_length": 7}, site=f"{cname}.load:ProbsBelong")
 
 
+def reload_ensemble_part(ck, tier):
+    """ProbsBelong and history integrity of the ensemble sampler across save / load / advance"""
+    import tempfile
+    from inference.mcmc import EnsembleSampler
+    post = GaussPost(3)
+    ck.case(("reload", "EnsembleSampler"))
+    try:
+        ch = EnsembleSampler(posterior=post, starting_positions=_arrays()["walkers"].copy(), display_progress=False)
+        ch.rng = np.random.default_rng(5 + seed())
+        ch.advance(4)
+        S0, P0 = np.array(ch.get_sample(), dtype=float).copy(), np.array(ch.get_probabilities(), dtype=float).copy()
+        with tempfile.TemporaryDirectory() as d:
+            ch.save(d + "/ens.npz")
+            ch2 = EnsembleSampler.load(d + "/ens.npz", posterior=post)
+        ch2.rng = np.random.default_rng(6 + seed())
+        ch2.advance(4)
+        S, P = np.asarray(ch2.get_sample(), dtype=float), np.asarray(ch2.get_probabilities(), dtype=float)
+    except Exception as ex:
+        ck.violation("save / load / advance of the ensemble sampler raised", {"error": repr(ex)[:300]}, site="EnsembleSampler.load")
+        return
+    want = np.array([post(x) for x in S])
+    bad = [int(k) for k in range(len(P)) if not abs(P[k] - want[k]) <= 1e-12 * max(1.0, abs(want[k]))]
+    kept = S.shape[0] == 2 * S0.shape[0] and np.array_equal(S[:S0.shape[0]], S0) and np.array_equal(P[:P0.shape[0]], P0)
+    if bad or not kept:
+        ck.violation("ProbsBelong at every row of an ensemble that was saved, reloaded and advanced; rows recorded before the save are unchanged",
+                     {"rows": int(S.shape[0]), "first_bad_row": bad[:1], "rows_before_save_unchanged": bool(kept)}, site="EnsembleSampler.load:ProbsBelong")
+
+
 def dtype_part(ck, tier):
     # The abstract state has no dtype: a sampler built from whole-number inputs given as INTEGER arrays evolves exactly like the one built
     # from the equal float arrays (same generators).  (An integer start must not turn the chain into an integer chain.)
@@ -168,6 +196,30 @@ def ownership_part(ck, tier):
                 if not all(np.array_equal(x, y) for x, y in zip(a, b)):
                     ck.violation("NonInterference: a sampler evolves as if it were alone (same draws, same samples)",
                                  {**ident, "sampler": s}, site=f"{cls_name}.__init__:ownership")
+    # replacements: sampler 1 replaces its current (= starting) point; the shared arrays and sampler 2 are untouched
+    for cls_name in ("GibbsChain", "MetropolisChain", "PcaChain", "HamiltonianChain"):
+        shared = _arrays()
+        before = copy.deepcopy(shared)
+        a, b = _mk(cls_name, shared, 11 + seed()), _mk(cls_name, shared, 12 + seed())
+        ck.case(("own-replace", cls_name))
+        try:
+            newpt = np.array([2.0, 2.5, -1.0])
+            a[0].replace_last(newpt)                        # as the tempering worker does: the point, then its log-probability
+            a[0].probs[-1] = GaussPost(3)(newpt) * a[0].inv_temp
+            a[1]()
+            sb, pb_ = b[2]()
+            post_b = GaussPost(shared["start"].size)
+            ok_arrays = all(np.array_equal(shared[k], before[k]) for k in shared)
+            ok_other = np.array_equal(np.asarray(sb, dtype=float)[0], before["start"]) and abs(float(np.asarray(pb_)[0]) - post_b(before["start"])) <= 1e-12
+        except Exception as ex:
+            ck.violation("replace_last / take_step raised", {"class": cls_name, "error": repr(ex)[:300]}, site=f"{cls_name}.replace_last")
+            continue
+        if not ok_arrays:
+            ck.violation("UserArraysUnchanged: the arrays the samplers were built from are left unchanged (after a replacement of the current point)",
+                         {"class": cls_name, "start_before": before["start"], "start_after": shared["start"]}, site=f"{cls_name}.__init__:ownership")
+        if not ok_other:
+            ck.violation("NonInterference: replacing the current point of one sampler leaves the other sampler's recorded start and its log-probability alone",
+                         {"class": cls_name, "other_first_sample": np.asarray(sb, dtype=float)[0], "start": before["start"]}, site=f"{cls_name}.__init__:ownership")
     dtype_part(ck, tier)
     ck.count("ownership_model", "interleavings_replayed_per_class", len(orders))
     ck.sample({"part": "ownership", "interleaving": list(orders[len(orders) // 2]), "classes": 5})
@@ -207,7 +259,7 @@ def pt_part(ck, tier, unforced=False):
         else:
             ck.count("pt_exchanges", "accepted_with_different_energies", st["nontrivial_accepted"])
         # every index of every returned chain
-        tab = PT.etable()
+        tab = PT.etable(a.get("eoffset", 0))
         for ri, ret in enumerate(sc["result"]["returned"]):
             for w, c in enumerate(ret):
                 beta4 = int(round(4 / c["T"]))
@@ -234,6 +286,7 @@ def run(tier):
     hmcstep.run_part(ck, tier)
     ownership_part(ck, tier)
     reload_part(ck, tier)
+    reload_ensemble_part(ck, tier)
     pt_part(ck, tier)
     from harness import repotests
     repotests.run_part(ck, "C03")          # traces of the repository's own MCMC tests, judged by TestRunTrace.tla
